@@ -217,6 +217,8 @@ def gen_job(seed, profile="general"):
         if pick in ("mpc", "contact") and case in ("uniaxial", "custom") and fkind != "Axi":
             bb = mesh["b"]
             gap = r.choice([0.01, 0.02, 0.05]) if pick == "contact" else 0.2
+            if pick == "contact" and kpick(seed, "zero-gap", 4) == 0:
+                gap = 0.0  # the contact points start exactly on the wall
             mesh["extra_point"] = [0.5 * bb[0], bb[1] + gap] + ([0.5 * bb[2]] if dim == 3 else [])
             if pick == "mpc":
                 extra.append({"type": "MultiPointConstraint", "points": {"axis": 1, "at": "max"}, "centerpoint": {"at": "extra"}, "skip": [r.random() < 0.3 for _ in range(dim)], "multiplier": r.choice([1.0, 10.0, 100.0]), "negative_index": r.random() < 0.5})
